@@ -5,11 +5,11 @@ import re
 
 
 class Frame:
-    __slots__ = ('peer', 'lines', 'rcv', 'panic', 'st', 'trk', 'ents', 'net', 'idx', 'ord')
+    __slots__ = ('peer', 'lines', 'rcv', 'panic', 'st', 'trk', 'ents', 'net', 'idx', 'ord', 'assets')
 
     def __init__(self, peer, idx):
         self.peer, self.idx = peer, idx
-        self.lines, self.rcv, self.panic, self.st, self.trk, self.ents, self.net, self.ord = [], [], None, {}, {}, {}, {}, None
+        self.lines, self.rcv, self.panic, self.st, self.trk, self.ents, self.net, self.ord, self.assets = [], [], None, {}, {}, {}, {}, None, {}
 
 
 def kvs(words):
@@ -46,6 +46,8 @@ def parse(trace):
                 cur.net = kvs(w[2:])
             elif w[0] == 'ORD':
                 cur.ord = w[2:]
+            elif w[0] == 'AST':
+                cur.assets[(int(w[2]), w[3])] = w[4]
             elif w[0] == 'E':
                 d = kvs(w[3:])
                 d['ident'] = w[2]
@@ -327,4 +329,137 @@ def c04_optin(tr, origin, registered, marked_handles, excluded_always):
                     out.append(dict(signature='unmarked-entity-sent', origin=origin, what='peer %d received %s' % (f.peer, ' '.join(m))))
                 if (u, int(t) if t.isdigit() else -1) in excluded_always:
                     out.append(dict(signature='excluded-component-sent', origin=origin, what='peer %d received %s' % (f.peer, ' '.join(m))))
+    return out
+
+
+def canon_skin(v):
+    """skin[h2;r3][5] -> joints as uuid handles"""
+    return re.sub(r'\b[hr](\d+)', r'\1', v)
+
+
+def c16_skins(tr, origin):
+    out = []
+    if not ended_quiescent(tr):
+        return out
+    last = final_worlds(tr)
+    conn = connected_peers(last)
+    vals = {}
+    for p in conn:
+        for u, l in sync_entities(last[p]).items():
+            v = l[0]['compmap'].get(8)
+            if v is not None:
+                vals.setdefault(u, {})[p] = canon_skin(v)
+    for u, pv in sorted(vals.items()):
+        if len(set(pv.values())) > 1 or len(pv) != len([p for p in conn if u in sync_entities(last[p])]):
+            out.append(dict(signature='skin-differs', origin=origin,
+                            what='at quiescence SkinnedMesh of uuid %s: %s' % (u, ', '.join('peer %d=%s' % (p, v) for p, v in sorted(pv.items())))))
+    return out
+
+
+def c06_assets(tr, origin, enabled):
+    """enabled: peer -> (mat, mesh, audio) switches. At quiescence every uuid asset of an enabled
+    class held by a connected peer is held with equal content by every connected peer that
+    has the class enabled, provided its publisher had the class enabled."""
+    out = []
+    if not ended_quiescent(tr):
+        return out
+    last = final_worlds(tr)
+    conn = connected_peers(last)
+
+    def on(p, k):
+        m, me, au = enabled.get(p, (0, 0, 0))
+        return {0: m, 2: m, 1: me, 3: au}[k]
+    published = {}
+    for ev in tr['events']:
+        if ev[0] == 'op' and ev[2][0] == 'addasset':
+            k, a, v = int(ev[2][1]), ev[2][2], ev[2][3]
+            if on(ev[1], k):
+                published[(k, a)] = v
+    for (k, a), v in sorted(published.items()):
+        for p in conn:
+            if not on(p, k):
+                continue
+            got = last[p].assets.get((k, a))
+            if got != v:
+                out.append(dict(signature='asset-missing' if got is None else 'asset-content-differs', origin=origin,
+                                what='at quiescence asset kind %d id %s: last published content %s, peer %d holds %s' % (k, a, v, p, got)))
+    return out
+
+
+def c04_assets(tr, origin, enabled):
+    """assets whose class is disabled on their owner, and index-id assets, never reach another peer"""
+    out = []
+
+    def on(p, k):
+        m, me, au = enabled.get(p, (0, 0, 0))
+        return {0: m, 2: m, 1: me, 3: au}[k]
+    forbidden = {}
+    allowed = set()
+    for ev in tr['events']:
+        if ev[0] == 'op' and ev[2][0] == 'addasset':
+            k, a = int(ev[2][1]), ev[2][2]
+            if on(ev[1], k):
+                allowed.add((k, a))
+            else:
+                forbidden.setdefault((k, a), set()).add(ev[1])
+    for ev in tr['events']:
+        if ev[0] != 'frame':
+            continue
+        f = ev[1]
+        for (k, a), v in f.assets.items():
+            if (k, a) in forbidden and (k, a) not in allowed and f.peer not in forbidden[(k, a)]:
+                out.append(dict(signature='disabled-class-asset-leaked', origin=origin,
+                                what='peer %d holds asset kind %d id %s whose class is disabled on its owner' % (f.peer, k, a)))
+        for frm, m in f.rcv:
+            if m[0] == 'asset' and m[2].startswith('u'):
+                out.append(dict(signature='non-script-asset-sent', origin=origin, what='peer %d received %s' % (f.peer, ' '.join(m))))
+    return out
+
+
+def c15_states(tr, origin):
+    """published states follow the allowed paths; InitialSyncFinished once per join"""
+    out = []
+    prev = {}
+    for ev in tr['events']:
+        if ev[0] != 'frame':
+            continue
+        f = ev[1]
+        if f.panic or not f.st:
+            continue
+        c = f.st.get('client')
+        pc = prev.get(f.peer, {}).get('client', 'D')
+        ok = {('D', 'D'), ('D', 'G'), ('G', 'G'), ('G', 'C'), ('C', 'C'), ('C', 'D'), ('G', 'D')}
+        if (pc, c) not in ok:
+            out.append(dict(signature='client-state-jump', origin=origin, what='peer %d ClientState %s -> %s' % (f.peer, pc, c)))
+        if c == 'C' and pc == 'G' and f.net.get('status') not in ('connected',):
+            # Connected is published one frame after verify saw the transport connected; the status
+            # observed now must still be connected unless the transport was removed in between
+            if f.net.get('clit') == '1':
+                out.append(dict(signature='connected-before-transport', origin=origin,
+                                what='peer %d published ClientState::Connected while RenetClient is %s' % (f.peer, f.net.get('status'))))
+        prev[f.peer] = f.st
+    return out
+
+
+def stuck_states(tr, origin):
+    """after removetransports and >= 3 further frames, both states must be Disconnected"""
+    out = []
+    removed_at = {}
+    count = {}
+    for ev in tr['events']:
+        if ev[0] == 'op' and ev[2][0] == 'removetransports':
+            removed_at[ev[1]] = True
+            count[ev[1]] = 0
+        if ev[0] == 'op' and ev[2][0] == 'setup':
+            removed_at.pop(ev[1], None)
+        if ev[0] == 'frame' and ev[1].peer in removed_at and not ev[1].panic:
+            p = ev[1].peer
+            count[p] += 1
+            if count[p] >= 3:
+                if ev[1].st.get('client') != 'D':
+                    out.append(dict(signature='client-state-stuck-connecting' if ev[1].st.get('client') == 'G' else 'client-state-stuck',
+                                    origin=origin, what='peer %d: %d frames after its transport was removed ClientState is %s' % (p, count[p], ev[1].st.get('client'))))
+                if ev[1].st.get('server') != 'D':
+                    out.append(dict(signature='server-state-stuck', origin=origin,
+                                    what='peer %d: %d frames after its transport was removed ServerState is %s' % (p, count[p], ev[1].st.get('server'))))
     return out
